@@ -443,7 +443,7 @@ def wiener_filter_posterior(
     """
     if not isinstance(likelihood, LikelihoodWithModel):
         msg = f"likelihood must be of LikelihoodWithModel type; got {likelihood}"
-        return TypeError(msg)
+        raise TypeError(msg)
     if not model_is_linear and position is None:
         msg = "For nonlinear models a position to linearize must be specified."
         raise ValueError(msg)
@@ -460,6 +460,7 @@ def wiener_filter_posterior(
         _, forward_lin = jax.linearize(likelihood.forward, position)
         data = data - likelihood.forward(position) + forward_lin(position)
 
+    draw_linear_kwargs = {} if draw_linear_kwargs is None else draw_linear_kwargs
     cg = draw_linear_kwargs.get("cg", conjugate_gradient.cg)
     forward_lin_T = jax.linear_transpose(forward_lin, likelihood.domain)
     forward_lin_T = _functional_conj(forward_lin_T)
